@@ -13,7 +13,7 @@ from gen import irgen
 from vlib import core, passlib
 from tools.fields_of import bad_optional
 
-COQ_TARGETS = ["Props/C06.vo", "Model/Spec06.vo", "Proofs/ChainPresProofs.vo", "Proofs/ChainPhpJavaProofs.vo"]
+COQ_TARGETS = ["Props/C06.vo", "Model/Spec06.vo", "Proofs/ChainPresProofs.vo", "Proofs/ChainPhpJavaProofs.vo", "Proofs/ChainPhpInlineNF.vo"]
 PROPS = "Props/C06.v"
 TRUSTED = [
     "normal-form predicates coq/Model/NF.v (hint payloads are excluded: they keep the original union by design)",
@@ -75,7 +75,7 @@ TAME_DEF = """Definition case_tame (c : nfcase) : bool :=
   let '(lang, (input, _, outcome, _)) := c in
   match outcome with
   | Ok _ => if String.eqb lang "go" then tame_go input else if String.eqb lang "python" then tame_python input
-            else if String.eqb lang "java" then tame_java_full input else if String.eqb lang "php" then tame_php input
+            else if String.eqb lang "java" then tame_java_full input else if String.eqb lang "php" then tame_php_inl input
             else if String.eqb lang "typescript" then true else false
   | _ => false
   end.
@@ -237,7 +237,7 @@ def run(ctx, verdict, replay=None, model_ok=True):
     def do(k):
         ids = shards[k]
         cases = "[" + ";\n".join('("%s", %s)' % (jobs[i]["lang"], passlib.case_term(results[i])) for i in ids) + "]"
-        pre = passlib.PREAMBLE % "Model.Spec06 Proofs.ChainPresProofs Proofs.ChainPhpJavaProofs" + TAME_DEF + "Definition cases : list nfcase :=\n%s.\n" % cases
+        pre = passlib.PREAMBLE % "Model.Spec06 Proofs.ChainPresProofs Proofs.ChainPhpJavaProofs Proofs.ChainPhpInlineNF" + TAME_DEF + "Definition cases : list nfcase :=\n%s.\n" % cases
         r = core.coq_eval_lists(ctx, "cases_C06_%d" % k, pre, [
             ("NF", "indices case_nf_bad cases"), ("MM", "indices case_chain_mismatch cases"),
             ("UM", "indices case_chain_unmodelled cases"), ("FL", "indices case_chain_failed cases"),
